@@ -117,6 +117,7 @@ impl <T: ArrayElement> ArrayReorder<T> for Array<T> {
             Some(axes) => {
                 let self_shape = self.shape.clone();
                 let axes = axes.into_iter().map(|i| self.normalize_axis(i)).collect::<Vec<usize>>();
+                if axes.iter().any(|&ax| ax >= self_shape.len()) { return Err(ArrayError::AxisOutOfBounds) }
 
                 let mut elements = self.elements.clone();
                 for ax in axes {
@@ -130,8 +131,8 @@ impl <T: ArrayElement> ArrayReorder<T> for Array<T> {
                             .flat_map(|arr| arr.elements.reverse_ext())
                             .collect::<Vec<T>>()
                         } else { flatten
-                            .split(self_shape[ax], None)?.into_iter()
-                            .map(|i| i.reshape(&self.shape.clone().remove_at(ax)))
+                            .split(self_shape[0], None)?.into_iter()
+                            .map(|i| i.reshape(&self.shape.clone().remove_at(0)))
                             .map(|i| i.flip(Some(vec![ax.to_isize() - 1])))
                             .collect::<Vec<Result<Self, _>>>()
                             .has_error()?.into_iter()
@@ -156,7 +157,16 @@ impl <T: ArrayElement> ArrayReorder<T> for Array<T> {
     }
 
     fn roll(&self, shift: Vec<isize>, axes: Option<Vec<isize>>) -> Result<Self, ArrayError> {
+        fn rotate<E>(items: &mut Vec<E>, shift: isize) {
+            if items.is_empty() { return }
+            let len = items.len().to_isize();
+            items.rotate_right(shift.rem_euclid(len).to_usize());
+        }
+
         let array = if axes.is_none() { self.ravel()? } else { self.clone() };
+        if let Some(axes) = &axes {
+            if axes.iter().any(|&ax| self.normalize_axis(ax) >= self.shape.len()) { return Err(ArrayError::AxisOutOfBounds) }
+        }
         let axes = axes.unwrap_or_else(|| vec![0]);
 
         let broadcasted = Array::flat(shift).broadcast(&Array::flat(axes)?)?;
@@ -176,10 +186,7 @@ impl <T: ArrayElement> ArrayReorder<T> for Array<T> {
         match array.ndim()? {
             0 => Self::empty(),
             1 => {
-                for &sh in shifts.values() {
-                    if sh >= 0 { elements.rotate_right(sh.to_usize()); }
-                    else { elements.rotate_left(sh.unsigned_abs()); }
-                }
+                for &sh in shifts.values() { rotate(&mut elements, sh); }
                 Self::flat(elements).reshape(&self.shape)
             },
             _ => {
@@ -187,20 +194,18 @@ impl <T: ArrayElement> ArrayReorder<T> for Array<T> {
                     let flatten = Self::flat(elements.clone());
                     elements = if ax == 0 {
                         let mut split = flatten.split(self.shape[0], Some(0))?;
-                        if sh >= 0 { split.rotate_right(sh.to_usize()); }
-                        else { split.rotate_left(sh.unsigned_abs()); }
+                        rotate(&mut split, sh);
                         split.into_iter().flatten().collect()
                     } else if ax == array.ndim()? - 1 { flatten
                         .split(self.shape[0..ax].iter().product(), None)?.iter()
                         .flat_map(|item| {
                             let mut tmp_item = item.elements.clone();
-                            if sh >= 0 { tmp_item.rotate_right(sh.to_usize()); }
-                            else { tmp_item.rotate_left(sh.unsigned_abs()); }
+                            rotate(&mut tmp_item, sh);
                             tmp_item
                         }).collect()
                     } else { flatten
-                        .split(self.shape[ax], None)?.into_iter()
-                        .map(|i| i.reshape(&self.shape.clone().remove_at(ax)))
+                        .split(self.shape[0], None)?.into_iter()
+                        .map(|i| i.reshape(&self.shape.clone().remove_at(0)))
                         .map(|i| i.roll(vec![shifts[&ax]], Some(vec![ax.to_isize() - 1])))
                         .collect::<Vec<Result<Self, _>>>()
                         .has_error()?.into_iter()
